@@ -7,7 +7,8 @@ package PKG
 // to see the ticker it creates and the instants it reads), drives it with abstract histories
 // (TLC-generated and seeded) and records one NDJSON line per step at its linearization point:
 //
-//   Request  the request was received by the router AND a following sentinel request (unknown chain 65535,
+//   Request  the request was received by the router AND a following sentinel request (an unknown chain, 65535 unless
+//            the scenario makes 65535 a watched chain; then 65533,
 //            unique tx) was received too.  obsvReqC is unbuffered and the router is one goroutine, so the
 //            sentinel can only be received when the router is back in its select, i.e. when the previous
 //            request has been processed completely.  No sleeps are used as synchronisation.
@@ -44,10 +45,11 @@ import (
 type vrScenario struct {
 	ID  int `json:"id"`
 	Cfg struct {
-		Caps   map[string]int      `json:"caps"`
-		Fill   map[string][]string `json:"fill"`
-		OutCap int                 `json:"outcap"`
-		Unit   int                 `json:"unit"` // seconds per time unit of the steps
+		Caps     map[string]int      `json:"caps"`
+		Fill     map[string][]string `json:"fill"`
+		OutCap   int                 `json:"outcap"`
+		Unit     int                 `json:"unit"`     // seconds per time unit of the steps
+		Sentinel uint32              `json:"sentinel"` // chain id of the rendezvous requests (not a known chain); 0 = 65535
 	} `json:"cfg"`
 	Steps []vhStep `json:"steps"`
 }
@@ -167,7 +169,11 @@ func (r *vrRun) send(req *gossipv1.ObservationRequest) string {
 func (r *vrRun) sync() string {
 	r.sentinel++
 	tx := []byte(fmt.Sprintf("sentinel-%d-%d", r.sc.ID, r.sentinel))
-	return r.send(&gossipv1.ObservationRequest{ChainId: 65535, TxHash: tx})
+	ch := r.sc.Cfg.Sentinel
+	if ch == 0 {
+		ch = 65535
+	}
+	return r.send(&gossipv1.ObservationRequest{ChainId: ch, TxHash: tx})
 }
 
 func (r *vrRun) fail(kind string, during string, a map[string]interface{}) {
